@@ -1,6 +1,826 @@
+//! C16 — SD-JWT credentials and key-binding JWTs between issuer, holder, adversary and verifier.
+
+use super::b64url_decode;
+use super::did_of_url;
+use super::doc_method;
+use super::draw_lag;
+use super::flip_bit;
+use super::is_did;
+use super::parse_compact;
+use super::sig_truth;
+use super::variant_names;
+use super::Clock;
+use super::Ledger;
+use super::Party;
 use crate::core::batch::Params;
-pub const RULE: &str = "";
+use crate::core::ctx;
+use crate::core::exec::block_on;
+use crate::engines::docmodel::Scope;
+use crate::engines::stor::to_scope;
+use crate::engines::stor::AnyDoc;
+use identity_core::common::Object;
+use identity_core::common::Timestamp;
+use identity_core::convert::FromJson;
+use identity_credential::credential::Credential;
+use identity_credential::sd_jwt_payload::KeyBindingJwtClaims;
+use identity_credential::sd_jwt_payload::SdJwt;
+use identity_credential::sd_jwt_payload::SdObjectDecoder;
+use identity_credential::sd_jwt_payload::SdObjectEncoder;
+use identity_credential::sd_jwt_payload::Sha256Hasher;
+use identity_credential::validator::FailFast;
+use identity_credential::validator::JwtCredentialValidationOptions;
+use identity_credential::validator::KeyBindingJWTValidationOptions;
+use identity_credential::validator::KeyBindingJwtError;
+use identity_credential::validator::SdJwtCredentialValidator;
+use identity_did::DIDUrl;
+use identity_document::document::CoreDocument;
+use identity_document::verifiable::JwsVerificationOptions;
+use identity_eddsa_verifier::EdDSAJwsVerifier;
+use identity_storage::JwkDocumentExt;
+use identity_storage::JwsSignatureOptions;
+use serde_json::Value;
+use sha2::Digest;
+use std::collections::BTreeSet;
+
+pub const RULE: &str = "One run = an issuer, 1-2 holders, an adversary and a verifier with skewed clocks: the issuer conceals a \
+  tape-drawn subset of claims (leaf claims, an array element, a nested object whose child is concealed too; salts from the \
+  tape) and signs the SD-JWT; a holder discloses a subset and adds a key-binding JWT (typ, sd_hash, nonce, aud, iat from its \
+  clock); the presentation string crosses a network that flips bits anywhere in the ~-separated string and an adversary that \
+  drops / duplicates / reorders / forges disclosures, re-signs the KB-JWT with another key or as another holder, changes \
+  typ, replays nonce / aud, or swaps in a stale KB-JWT; the verifier validates both parts with options drawn per call and \
+  its clock stepped around the iat window. Non-trivial: at least one fault or false condition; distinct = distinct hashes \
+  of (moves, expected outcomes).";
+
 pub fn probes(_tier: &str) -> Vec<String> {
-  Vec::new()
+  [
+    "fault.net.bitflip",
+    "fault.adversary.drop_disclosure",
+    "fault.adversary.duplicate_disclosure",
+    "fault.adversary.reorder_disclosures",
+    "fault.adversary.forge_disclosure",
+    "fault.adversary.kb_other_key",
+    "fault.adversary.kb_other_holder",
+    "fault.adversary.kb_wrong_typ",
+    "fault.adversary.kb_stale_sd_hash",
+    "fault.adversary.strip_kb",
+    "fault.clock.boundary",
+    "probe.cred.accepted",
+    "probe.cred.rejected",
+    "probe.kb.accepted",
+    "probe.kb.rejected",
+    "false.kb.signature",
+    "false.kb.digest",
+    "false.kb.nonce",
+    "false.kb.aud",
+    "false.kb.iat",
+    "false.kb.typ",
+    "false.cred.disclosure_unbound",
+    "probe.nested_disclosure",
+    "probe.array_disclosure",
+  ]
+  .iter()
+  .map(|s| (*s).to_owned())
+  .collect()
 }
-pub fn run(_params: &Params) {}
+
+fn digest_of(s: &str) -> String {
+  identity_jose::jwu::encode_b64(sha2::Sha256::digest(s.as_bytes()))
+}
+
+fn ts(unix: i64) -> Timestamp {
+  Timestamp::from_unix(unix).expect("timestamp in range")
+}
+
+fn sign_raw(p: &Party, fragment: &str, payload: &[u8], opts: &JwsSignatureOptions) -> Result<String, String> {
+  let r = match &p.doc {
+    AnyDoc::Core(d) => block_on(d.create_jws(&p.storage, fragment, payload, opts)),
+    AnyDoc::Iota(d) => block_on(d.create_jws(&p.storage, fragment, payload, opts)),
+  };
+  r.map(|j| j.as_str().to_owned()).map_err(|e| e.to_string())
+}
+
+/// Collects every digest mentioned in `_sd` arrays and `...` array entries of a JSON value.
+fn digests_in(v: &Value, out: &mut BTreeSet<String>) {
+  match v {
+    Value::Object(o) => {
+      for (k, val) in o {
+        if k == "_sd" {
+          if let Some(a) = val.as_array() {
+            for d in a {
+              if let Some(s) = d.as_str() {
+                out.insert(s.to_owned());
+              }
+            }
+          }
+        } else if k == "..." {
+          if let Some(s) = val.as_str() {
+            out.insert(s.to_owned());
+          }
+        } else {
+          digests_in(val, out);
+        }
+      }
+    }
+    Value::Array(a) => {
+      for x in a {
+        digests_in(x, out);
+      }
+    }
+    _ => {}
+  }
+}
+
+/// Value carried by a disclosure string (last element of the decoded JSON array), if it decodes.
+fn disclosure_value(d: &str) -> Option<Value> {
+  let bytes = b64url_decode(d)?;
+  let v: Value = serde_json::from_slice(&bytes).ok()?;
+  v.as_array().and_then(|a| a.last().cloned())
+}
+
+/// Which of the supplied disclosures are bound to the signed claims (directly or through other bound disclosures).
+fn bound_disclosures(signed_claims: &Value, supplied: &[String]) -> Vec<bool> {
+  let mut reachable: BTreeSet<String> = BTreeSet::new();
+  digests_in(signed_claims, &mut reachable);
+  let digests: Vec<String> = supplied.iter().map(|d| digest_of(d)).collect();
+  let mut expanded = vec![false; supplied.len()];
+  loop {
+    let mut progress = false;
+    for i in 0..supplied.len() {
+      if !expanded[i] && reachable.contains(&digests[i]) {
+        expanded[i] = true;
+        progress = true;
+        if let Some(v) = disclosure_value(&supplied[i]) {
+          digests_in(&v, &mut reachable);
+        }
+      }
+    }
+    if !progress {
+      break;
+    }
+  }
+  expanded
+}
+
+#[derive(Clone)]
+struct Concealed {
+  /// path inside the credential JSON (without the leading /vc)
+  cred_path: Vec<String>,
+  disclosure: String,
+  parent: Option<usize>,
+}
+
+#[derive(Clone)]
+struct Issued {
+  jwt: String,
+  concealed: Vec<Concealed>,
+  /// the credential the issuer passed in (full, before concealment)
+  truth: Value,
+  issuer_kid: String,
+}
+
+fn remove_path(v: &mut Value, path: &[String]) {
+  if path.is_empty() {
+    return;
+  }
+  let mut cur = v;
+  for seg in &path[..path.len() - 1] {
+    cur = match cur {
+      Value::Object(o) => match o.get_mut(seg) {
+        Some(x) => x,
+        None => return,
+      },
+      Value::Array(a) => match seg.parse::<usize>().ok().and_then(|i| a.get_mut(i)) {
+        Some(x) => x,
+        None => return,
+      },
+      _ => return,
+    };
+  }
+  let last = &path[path.len() - 1];
+  match cur {
+    Value::Object(o) => {
+      o.remove(last);
+    }
+    Value::Array(a) => {
+      if let Ok(i) = last.parse::<usize>() {
+        if i < a.len() {
+          a[i] = Value::Null; // marker, filtered below
+        }
+      }
+    }
+    _ => {}
+  }
+}
+
+fn strip_null_markers(v: &mut Value) {
+  match v {
+    Value::Array(a) => {
+      a.retain(|x| !x.is_null());
+      for x in a {
+        strip_null_markers(x);
+      }
+    }
+    Value::Object(o) => {
+      for (_, x) in o.iter_mut() {
+        strip_null_markers(x);
+      }
+    }
+    _ => {}
+  }
+}
+
+pub fn run(_params: &Params) {
+  let mut clock = Clock { now: ctx::BASE_TIME };
+  let mut ledger = Ledger::default();
+  // ---- parties ----
+  let mut issuer = Party::new("issuer", ctx::choose(2) == 0, 0);
+  issuer.skew = ctx::range(-5, 5);
+  clock.enter(issuer.skew);
+  let _ = issuer.gen_method("sign", Some(1));
+  let n_holders = 1 + ctx::choose(2);
+  let mut holders: Vec<Party> = Vec::new();
+  for i in 0..n_holders {
+    let mut h = Party::new("holder", ctx::choose(2) == 0, i);
+    h.skew = ctx::range(-5, 5);
+    clock.enter(h.skew);
+    let _ = h.gen_method("kb", Some(0));
+    if ctx::choose(2) == 0 {
+      let _ = h.gen_method("alt", None);
+    }
+    holders.push(h);
+  }
+  let mut adv = Party::new("adversary", false, 0);
+  clock.enter(0);
+  let _ = adv.gen_method("adv", None);
+  let _ = ledger.publish(&mut issuer, clock.now);
+  for h in holders.iter_mut() {
+    let _ = ledger.publish(h, clock.now);
+  }
+  let _ = ledger.publish(&mut adv, clock.now);
+
+  let mut issued: Vec<Issued> = Vec::new();
+  let mut old_kbs: Vec<String> = Vec::new();
+  let mut nontrivial = false;
+  let rounds = 2 + ctx::choose(5);
+  for round in 0..rounds {
+    clock.advance(120);
+    // ---- issue ----
+    if issued.is_empty() || ctx::choose(3) == 0 {
+      let now_i = clock.enter(issuer.skew);
+      let holder_did = holders[ctx::choose(holders.len())].did.clone();
+      let expiry = match ctx::choose(3) {
+        0 => None,
+        1 => Some(now_i + 3600),
+        _ => Some(now_i + 5 + ctx::choose(60) as i64),
+      };
+      let mut c = serde_json::json!({
+        "@context": "https://www.w3.org/2018/credentials/v1",
+        "id": format!("https://cred.example/sd/{round}"),
+        "type": ["VerifiableCredential", "SimSdCredential"],
+        "issuer": issuer.did,
+        "issuanceDate": ts(now_i - 10).to_rfc3339(),
+        "credentialSubject": {
+          "id": holder_did,
+          "name": format!("Holder {round}"),
+          "level": round,
+          "address": {"street": "Sim Road 1", "country": "SL"},
+          "tags": ["alpha", "beta", "gamma"]
+        }
+      });
+      if let Some(e) = expiry {
+        c["expirationDate"] = ts(e).to_rfc3339().into();
+      }
+      let Ok(cred) = Credential::<Object>::from_json_value(c) else { continue };
+      let truth = serde_json::to_value(&cred).unwrap();
+      let Ok(payload) = cred.serialize_jwt(None) else { continue };
+      let Ok(mut enc) = SdObjectEncoder::new(&payload) else { continue };
+      let mut concealed: Vec<Concealed> = Vec::new();
+      let salt = || Some(identity_jose::jwu::encode_b64(ctx::bytes(16)));
+      // leaf claims
+      for leaf in ["name", "level"] {
+        if ctx::choose(2) == 0 {
+          if let Ok(d) = enc.conceal(&format!("/vc/credentialSubject/{leaf}"), salt()) {
+            concealed.push(Concealed {
+              cred_path: vec!["credentialSubject".into(), leaf.into()],
+              disclosure: d.to_string(),
+              parent: None,
+            });
+          }
+        }
+      }
+      // array element
+      if ctx::choose(2) == 0 {
+        let idx = ctx::choose(3);
+        if let Ok(d) = enc.conceal(&format!("/vc/credentialSubject/tags/{idx}"), salt()) {
+          ctx::stat("probe.array_disclosure");
+          concealed.push(Concealed {
+            cred_path: vec!["credentialSubject".into(), "tags".into(), idx.to_string()],
+            disclosure: d.to_string(),
+            parent: None,
+          });
+        }
+      }
+      // nested: child first, then (sometimes) its parent object
+      if ctx::choose(2) == 0 {
+        if let Ok(d) = enc.conceal("/vc/credentialSubject/address/street", salt()) {
+          let child = concealed.len();
+          concealed.push(Concealed {
+            cred_path: vec!["credentialSubject".into(), "address".into(), "street".into()],
+            disclosure: d.to_string(),
+            parent: None,
+          });
+          if ctx::choose(2) == 0 {
+            if let Ok(dp) = enc.conceal("/vc/credentialSubject/address", salt()) {
+              ctx::stat("probe.nested_disclosure");
+              let parent = concealed.len();
+              concealed.push(Concealed {
+                cred_path: vec!["credentialSubject".into(), "address".into()],
+                disclosure: dp.to_string(),
+                parent: None,
+              });
+              concealed[child].parent = Some(parent);
+            }
+          }
+        }
+      }
+      if ctx::choose(2) == 0 {
+        enc.add_sd_alg_property();
+      }
+      if ctx::choose(3) == 0 {
+        let _ = enc.add_decoys("/vc/credentialSubject", 1 + ctx::choose(2));
+      }
+      let Ok(encoded) = enc.try_to_string() else { continue };
+      let opts = JwsSignatureOptions::default().typ("sd-jwt".to_owned());
+      if let Ok(jwt) = sign_raw(&issuer, "sign", encoded.as_bytes(), &opts) {
+        ctx::trace(format!("round {round}: issuer signs SD-JWT with {} concealed claims", concealed.len()));
+        issued.push(Issued {
+          jwt,
+          concealed,
+          truth,
+          issuer_kid: format!("{}#sign", issuer.did),
+        });
+      }
+      continue;
+    }
+    // ---- sometimes the holder rotates its key (stale resolution then matters) ----
+    if ctx::chance(1, 6) {
+      let hi = ctx::choose(holders.len());
+      clock.enter(holders[hi].skew);
+      let h = &mut holders[hi];
+      let id = DIDUrl::parse(format!("{}#kb", h.did)).unwrap();
+      let st = &h.storage;
+      let ok = match &mut h.doc {
+        AnyDoc::Core(d) => block_on(d.purge_method(st, &id)).is_ok(),
+        AnyDoc::Iota(d) => block_on(d.purge_method(st, &id)).is_ok(),
+      };
+      if ok {
+        h.methods.retain(|m| m.0 != "kb");
+        let _ = h.gen_method("kb", Some(0));
+        let _ = ledger.publish(h, clock.now);
+        ctx::trace(format!("round {round}: holder {hi} rotates #kb"));
+      }
+    }
+    // ---- present ----
+    let it = issued[ctx::choose(issued.len())].clone();
+    let hi = ctx::choose(holders.len());
+    let now_h = clock.enter(holders[hi].skew);
+    let holder = &holders[hi];
+    // disclose a subset (a child needs its parent)
+    let mut chosen: Vec<bool> = it.concealed.iter().map(|_| ctx::choose(2) == 0).collect();
+    for i in 0..chosen.len() {
+      if let Some(p) = it.concealed[i].parent {
+        if chosen[i] && !chosen[p] {
+          chosen[i] = false;
+        }
+      }
+    }
+    let mut disclosures: Vec<String> = it
+      .concealed
+      .iter()
+      .zip(chosen.iter())
+      .filter(|(_, c)| **c)
+      .map(|(c, _)| c.disclosure.clone())
+      .collect();
+    let nonce = format!("nonce{}", ctx::choose(1000));
+    let aud = "https://verifier.example".to_owned();
+    let iat = now_h - [0i64, 1, 30][ctx::choose(3)] + if ctx::chance(1, 8) { 5 } else { 0 };
+    let kb_claims = KeyBindingJwtClaims::new(&Sha256Hasher::new(), it.jwt.clone(), disclosures.clone(), nonce.clone(), aud.clone(), iat);
+    let kb_payload = serde_json::to_string(&kb_claims).unwrap();
+    let kb_opts = JwsSignatureOptions::default().typ(KeyBindingJwtClaims::KB_JWT_HEADER_TYP.to_owned());
+    let kb_frag = if holder.methods.iter().any(|m| m.0 == "alt") && ctx::choose(4) == 0 { "alt" } else { "kb" };
+    let Ok(mut kb) = sign_raw(holder, kb_frag, kb_payload.as_bytes(), &kb_opts) else { continue };
+    let kb_kid = format!("{}#{kb_frag}", holder.did);
+
+    // ---- adversary / network on the presentation ----
+    let mut moves: Vec<&'static str> = Vec::new();
+    let mut kb_present = true;
+    let n_moves = ctx::weighted(&[5, 4, 1]);
+    for _ in 0..n_moves {
+      match ctx::choose(10) {
+        0 if !disclosures.is_empty() => {
+          disclosures.remove(ctx::choose(disclosures.len()));
+          ctx::stat("fault.adversary.drop_disclosure");
+          moves.push("drop_disclosure");
+        }
+        1 if !disclosures.is_empty() => {
+          let d = disclosures[ctx::choose(disclosures.len())].clone();
+          disclosures.push(d);
+          ctx::stat("fault.adversary.duplicate_disclosure");
+          moves.push("duplicate_disclosure");
+        }
+        2 if disclosures.len() > 1 => {
+          disclosures.reverse();
+          ctx::stat("fault.adversary.reorder_disclosures");
+          moves.push("reorder_disclosures");
+        }
+        3 => {
+          let forged = identity_jose::jwu::encode_b64(
+            format!("[\"{}\", \"level\", 99]", identity_jose::jwu::encode_b64(ctx::bytes(8))).as_bytes(),
+          );
+          disclosures.push(forged);
+          ctx::stat("fault.adversary.forge_disclosure");
+          moves.push("forge_disclosure");
+        }
+        4 => {
+          // the adversary signs the same KB claims with its own key, claiming the holder's kid
+          let o = JwsSignatureOptions::default()
+            .typ(KeyBindingJwtClaims::KB_JWT_HEADER_TYP.to_owned())
+            .kid(kb_kid.clone());
+          if let Ok(k) = sign_raw(&adv, "adv", kb_payload.as_bytes(), &o) {
+            kb = k;
+            ctx::stat("fault.adversary.kb_other_key");
+            moves.push("kb_other_key");
+          }
+        }
+        5 if holders.len() > 1 => {
+          // another holder signs the KB-JWT (its own kid)
+          let other = &holders[(hi + 1) % holders.len()];
+          if let Ok(k) = sign_raw(other, "kb", kb_payload.as_bytes(), &kb_opts) {
+            kb = k;
+            ctx::stat("fault.adversary.kb_other_holder");
+            moves.push("kb_other_holder");
+          }
+        }
+        6 => {
+          let o = JwsSignatureOptions::default().typ(["JWT", "kb-jwt", "sd-jwt"][ctx::choose(3)].to_owned());
+          if let Ok(k) = sign_raw(holder, kb_frag, kb_payload.as_bytes(), &o) {
+            kb = k;
+            ctx::stat("fault.adversary.kb_wrong_typ");
+            moves.push("kb_wrong_typ");
+          }
+        }
+        7 if !old_kbs.is_empty() => {
+          kb = old_kbs[ctx::choose(old_kbs.len())].clone();
+          ctx::stat("fault.adversary.kb_stale_sd_hash");
+          moves.push("kb_stale");
+        }
+        8 => {
+          kb_present = false;
+          ctx::stat("fault.adversary.strip_kb");
+          moves.push("strip_kb");
+        }
+        _ => {}
+      }
+    }
+    old_kbs.push(kb.clone());
+    let sd = SdJwt::new(it.jwt.clone(), disclosures.clone(), if kb_present { Some(kb.clone()) } else { None });
+    let mut wire = sd.presentation();
+    if ctx::chance(1, 5) {
+      let (s, pos, bit) = flip_bit(&wire);
+      ctx::stat("fault.net.bitflip");
+      ctx::sched("bitflip", (pos * 8 + bit as usize) as u64);
+      wire = s;
+      moves.push("bitflip");
+    }
+    for m in &moves {
+      ctx::sched(m, 1);
+    }
+    if !moves.is_empty() {
+      nontrivial = true;
+    }
+    clock.advance(20);
+
+    // ---- verifier ----
+    let Ok(received) = ctx::catch(|| SdJwt::parse(&wire)).unwrap_or_else(|_| SdJwt::parse("~")) else {
+      ctx::trace(format!("round {round}: presentation {moves:?} does not parse as SD-JWT"));
+      continue;
+    };
+    let validator = SdJwtCredentialValidator::with_signature_verifier(EdDSAJwsVerifier::default(), SdObjectDecoder::new_with_sha256());
+    let verifier_skew = ctx::range(-2, 2);
+    let mut v_now = clock.now + verifier_skew;
+    if ctx::chance(1, 4) {
+      ctx::stat("fault.clock.boundary");
+      v_now = iat + ctx::range(-1, 1);
+    }
+    ctx::set_clock(v_now);
+
+    // -- (1) validate_credential --
+    let iv = ledger.latest(&issuer.did).unwrap_or(1);
+    let Some((_iv, Ok(issuer_doc))) = ledger.resolve(&issuer.did, draw_lag(iv, 1)) else { continue };
+    let issuer_json = serde_json::to_value(&issuer_doc).unwrap();
+    let copts = JwtCredentialValidationOptions::default();
+    let res = ctx::catch(|| validator.validate_credential::<_, Object>(&received, &issuer_doc, &copts, FailFast::FirstError));
+    match res {
+      Err(p) => {
+        ctx::violation("C16", "C16.error_never_crash", format!("validate_credential/panic/{}", moves.join("+")), format!("validate_credential panicked: {p}"));
+        return;
+      }
+      Ok(res) => {
+        // oracle
+        let parsed = parse_compact(&received.jwt);
+        let mut false_cond: Option<&'static str> = None;
+        let mut bound_all = false;
+        match &parsed {
+          None => false_cond = Some("decode"),
+          Some(p) => {
+            let kid = p.header.get("kid").and_then(|k| k.as_str()).unwrap_or("");
+            let x = doc_method(&issuer_json, kid, None)
+              .and_then(|(_, jwk)| jwk.get("x").and_then(|x| x.as_str().map(str::to_owned)));
+            let signing_input = format!("{}.{}", p.header_b64, p.payload_b64);
+            let all: Vec<&Party> = std::iter::once(&issuer).chain(holders.iter()).chain(std::iter::once(&adv)).collect();
+            let sig_ok = p.header.get("nonce").is_none()
+              && DIDUrl::parse(kid).is_ok()
+              && did_of_url(kid) == issuer.did
+              && p.header.get("alg").and_then(|a| a.as_str()) == Some("EdDSA")
+              && x.as_deref().map(|x| sig_truth(&all, signing_input.as_bytes(), &p.sig, x)).unwrap_or(false);
+            if !sig_ok {
+              false_cond = Some("issuer_signature");
+            } else if let Some(claims) = &p.payload {
+              let b = bound_disclosures(claims, &received.disclosures);
+              let distinct: BTreeSet<&String> = received.disclosures.iter().collect();
+              bound_all = b.iter().all(|x| *x) && distinct.len() == received.disclosures.len();
+              if !bound_all {
+                false_cond = Some("disclosure_unbound");
+                ctx::stat("false.cred.disclosure_unbound");
+              } else {
+                let exp = it.truth.get("expirationDate").and_then(|v| v.as_str()).and_then(|s| Timestamp::parse(s).ok()).map(|t| t.to_unix());
+                let iss_d = it.truth.get("issuanceDate").and_then(|v| v.as_str()).and_then(|s| Timestamp::parse(s).ok()).map(|t| t.to_unix()).unwrap_or(0);
+                if iss_d > v_now {
+                  false_cond = Some("issuance_date");
+                } else if exp.map(|e| e < v_now).unwrap_or(false) {
+                  false_cond = Some("expiration_date");
+                }
+              }
+            } else {
+              false_cond = Some("claims");
+            }
+          }
+        }
+        let got: Vec<&'static str> = match &res {
+          Ok(_) => vec![],
+          Err(e) => variant_names(&e.validation_errors),
+        };
+        ctx::trace(format!(
+          "round {round}: validate_credential {moves:?} ({} disclosures) -> {} ; expected false condition {false_cond:?}",
+          received.disclosures.len(),
+          if res.is_ok() { "Ok".to_owned() } else { format!("Err{got:?}") }
+        ));
+        ctx::sched("c", crate::core::tape::Fnv::of(false_cond.unwrap_or("-").as_bytes()));
+        match &res {
+          Ok(decoded) => {
+            ctx::stat("probe.cred.accepted");
+            if let Some(fc) = false_cond {
+              ctx::violation(
+                "C16",
+                "C16.credential_accept_only_if_bound",
+                format!("accepted-despite/{fc}/{}", moves.join("+")),
+                format!("SD-JWT credential accepted although [{fc}] is false (moves {moves:?})"),
+              );
+            } else if bound_all && received.jwt == it.jwt {
+              // fidelity: the issuer's credential restricted to the disclosed claims
+              let mut want = it.truth.clone();
+              let supplied: BTreeSet<&String> = received.disclosures.iter().collect();
+              // remove undisclosed items; children before parents, higher array indices first
+              let mut order: Vec<&Concealed> = it.concealed.iter().filter(|c| !supplied.contains(&c.disclosure)).collect();
+              order.sort_by(|a, b| b.cred_path.len().cmp(&a.cred_path.len()));
+              for c in order {
+                remove_path(&mut want, &c.cred_path);
+              }
+              strip_null_markers(&mut want);
+              let got_c = serde_json::to_value(&decoded.credential).unwrap();
+              if got_c != want {
+                ctx::violation(
+                  "C16",
+                  "C16.reconstructed_credential_is_disclosed_subset",
+                  "returned-credential-differs",
+                  format!("returned {got_c} but the issuer's credential restricted to the disclosed claims is {want}"),
+                );
+              }
+            }
+          }
+          Err(_) => {
+            ctx::stat("probe.cred.rejected");
+            if false_cond.is_none() {
+              ctx::stat("observation.cred_rejected_although_all_conditions_hold");
+            }
+          }
+        }
+      }
+    }
+
+    // -- (2) validate_key_binding_jwt --
+    let hv = ledger.latest(&holder.did).unwrap_or(1);
+    let lag = draw_lag(hv, 2);
+    if lag > 0 {
+      nontrivial = true;
+    }
+    let supply_other = holders.len() > 1 && ctx::chance(1, 8);
+    let holder_for_doc = if supply_other { &holders[(hi + 1) % holders.len()] } else { holder };
+    let Some((_v, Ok(holder_doc))) = ledger.resolve(&holder_for_doc.did, if supply_other { 0 } else { lag }) else { continue };
+    let holder_json = serde_json::to_value(&holder_doc).unwrap();
+    let mut ko = KeyBindingJWTValidationOptions::default();
+    let opt_nonce: Option<String> = match ctx::weighted(&[5, 1, 1]) {
+      0 => Some(nonce.clone()),
+      1 => Some("another-session".to_owned()),
+      _ => None,
+    };
+    if let Some(n) = &opt_nonce {
+      ko = ko.nonce(n.clone());
+    }
+    let opt_aud: Option<String> = match ctx::weighted(&[5, 1, 1]) {
+      0 => Some(aud.clone()),
+      1 => Some("https://other-verifier.example".to_owned()),
+      _ => None,
+    };
+    if let Some(a) = &opt_aud {
+      ko = ko.aud(a.clone());
+    }
+    let earliest: Option<i64> = if ctx::chance(1, 3) { Some(iat + ctx::range(-1, 1)) } else { None };
+    let latest: Option<i64> = if ctx::chance(1, 3) { Some(iat + ctx::range(-1, 1)) } else { None };
+    if let Some(e) = earliest {
+      ko = ko.earliest_issuance_date(ts(e));
+    }
+    if let Some(l) = latest {
+      ko = ko.latest_issuance_date(ts(l));
+    }
+    let scope: Option<Scope> = match ctx::weighted(&[4, 2, 1]) {
+      0 => None,
+      1 => Some(Some(0)),
+      _ => Some(Some(1)),
+    };
+    let mut jo = JwsVerificationOptions::default();
+    if let Some(s) = scope {
+      jo = jo.method_scope(to_scope(s));
+    }
+    ko = ko.jws_verifier_options(jo);
+    let res = ctx::catch(|| validator.validate_key_binding_jwt(&received, &holder_doc, &ko));
+    let res = match res {
+      Ok(r) => r,
+      Err(p) => {
+        // classify the situation structurally
+        let kbp = received.key_binding_jwt.as_deref().and_then(parse_compact);
+        let situation = match &kbp {
+          None => "kb-undecodable",
+          Some(_) => "kb-signature-does-not-verify",
+        };
+        ctx::violation(
+          "C16",
+          "C16.error_never_crash",
+          format!("validate_key_binding_jwt/panic/{situation}"),
+          format!("validate_key_binding_jwt panicked (moves {moves:?}): {p}"),
+        );
+        return;
+      }
+    };
+    // oracle
+    let mut want: Option<&'static str> = None;
+    let mut label = "-";
+    match &received.key_binding_jwt {
+      None => {
+        want = Some("MissingKeyBindingJwt");
+        label = "missing";
+      }
+      Some(kbs) => {
+        let sd_ok = parse_compact(&received.jwt).map(|p| p.payload.map(|v| v.is_object()).unwrap_or(false));
+        match sd_ok {
+          None => {
+            want = Some("JwtValidationError");
+            label = "sd_jwt_decode";
+          }
+          Some(false) => {
+            want = Some("DeserializationError");
+            label = "sd_jwt_claims";
+          }
+          Some(true) => match parse_compact(kbs) {
+            None => {
+              want = Some("JwtValidationError");
+              label = "kb_decode";
+            }
+            Some(p) => {
+              let typ = p.header.get("typ").and_then(|t| t.as_str());
+              if typ != Some(KeyBindingJwtClaims::KB_JWT_HEADER_TYP) {
+                want = Some("InvalidHeaderTypValue");
+                label = "typ";
+                ctx::stat("false.kb.typ");
+              } else {
+                let kid = p.header.get("kid").and_then(|k| k.as_str()).unwrap_or("");
+                let method = if DIDUrl::parse(kid).is_ok() { doc_method(&holder_json, kid, scope) } else { None };
+                match method {
+                  None => {
+                    want = Some("JwtValidationError");
+                    label = "method_lookup";
+                  }
+                  Some((_, jwk)) => {
+                    let x = jwk.get("x").and_then(|x| x.as_str()).unwrap_or("");
+                    let signing_input = format!("{}.{}", p.header_b64, p.payload_b64);
+                    let all: Vec<&Party> = std::iter::once(&issuer).chain(holders.iter()).chain(std::iter::once(&adv)).collect();
+                    let sig_ok = p.header.get("alg").and_then(|a| a.as_str()) == Some("EdDSA")
+                      && sig_truth(&all, signing_input.as_bytes(), &p.sig, x);
+                    if !sig_ok {
+                      want = Some("JwtValidationError");
+                      label = "signature";
+                      ctx::stat("false.kb.signature");
+                    } else {
+                      let claims = p.payload.clone().unwrap_or(Value::Null);
+                      let hash_payload = format!("{}~{}~", received.jwt, received.disclosures.join("~"));
+                      let digest = digest_of(&hash_payload);
+                      let c_iat = claims.get("iat").and_then(|v| v.as_i64());
+                      if claims.get("sd_hash").and_then(|v| v.as_str()) != Some(digest.as_str()) {
+                        want = Some("InvalidDigest");
+                        label = "digest";
+                        ctx::stat("false.kb.digest");
+                      } else if opt_nonce.is_some() && claims.get("nonce").and_then(|v| v.as_str()) != opt_nonce.as_deref() {
+                        want = Some("InvalidNonce");
+                        label = "nonce";
+                        ctx::stat("false.kb.nonce");
+                      } else if opt_aud.is_some() && claims.get("aud").and_then(|v| v.as_str()) != opt_aud.as_deref() {
+                        want = Some("AudianceMismatch");
+                        label = "aud";
+                        ctx::stat("false.kb.aud");
+                      } else if let Some(i) = c_iat {
+                        let too_early = earliest.map(|e| i < e).unwrap_or(false);
+                        let too_late = match latest {
+                          Some(l) => i > l,
+                          None => i > v_now,
+                        };
+                        if too_early || too_late {
+                          want = Some("IssuanceDate");
+                          label = "iat";
+                          ctx::stat("false.kb.iat");
+                        }
+                      }
+                    }
+                  }
+                }
+              }
+            }
+          },
+        }
+      }
+    }
+    let got: &'static str = match &res {
+      Ok(_) => "Ok",
+      Err(e) => e.into(),
+    };
+    ctx::trace(format!(
+      "round {round}: validate_key_binding_jwt {moves:?} scope={:?} -> {got} ; expected first false condition [{label}]",
+      scope.map(crate::engines::stor::scope_name)
+    ));
+    ctx::sched("k", crate::core::tape::Fnv::of(label.as_bytes()));
+    if want.is_some() {
+      nontrivial = true;
+    }
+    let bitflipped = moves.contains(&"bitflip");
+    match (&res, want) {
+      (Ok(_), Some(w)) => ctx::violation(
+        "C16",
+        "C16.kb_accept_only_if_fully_bound",
+        format!("accepted-despite/{label}/{}", moves.join("+")),
+        format!("KB-JWT accepted although [{label}] is false (expected {w}; moves {moves:?})"),
+      ),
+      (Ok(claims), None) => {
+        ctx::stat("probe.kb.accepted");
+        if claims.nonce != nonce && opt_nonce.is_some() {
+          ctx::violation("C16", "C16.kb_accept_only_if_fully_bound", "accepted/nonce-differs", "returned KB claims carry another nonce");
+        }
+      }
+      (Err(_), None) => {
+        ctx::stat("probe.kb.rejected");
+        ctx::stat("observation.kb_rejected_although_all_conditions_hold");
+      }
+      (Err(_), Some(w)) => {
+        ctx::stat("probe.kb.rejected");
+        let ok = if bitflipped {
+          true // a flipped bit may change header semantics the harness model does not replicate; any error is right
+        } else {
+          got == w
+        };
+        if !ok {
+          ctx::violation(
+            "C16",
+            "C16.error_identifies_condition",
+            format!("want={w}/got={got}/{}", moves.join("+")),
+            format!("first false condition is [{label}] (expects {w}) but the error is {got}"),
+          );
+        }
+      }
+    }
+    let _ = (KeyBindingJwtError::MissingKeyBindingJwt, is_did(""), CoreDocument::id);
+    if ctx::has_violation() {
+      break;
+    }
+  }
+  if nontrivial {
+    ctx::mark_nontrivial();
+  }
+}
